@@ -706,11 +706,30 @@ def parse_block(g):
             vs = []
             for part in parts:
                 part = [u_ for u_ in part if not (u_.kind == "group" and u_.text == "Bracket") and not u_.is_p("#")]
-                if len(part) != 1 or part[0].kind != "ident":
-                    raise SiteError(f"the local enum `{name}` has a variant that is not a unit variant", ln)
-                vs.append(part[0].text)
+                if len(part) == 1 and part[0].kind == "ident":
+                    vs.append((part[0].text, "unit"))
+                elif len(part) == 2 and part[0].kind == "ident" and is_group(part[1], "Paren"):
+                    vs.append((part[0].text, "tuple"))
+                else:
+                    raise SiteError(f"the local enum `{name}` has a variant that is neither a unit nor a tuple variant", ln)
             p.i += 3
             stmts.append(("enum", ln, name, vs))
+        elif is_kw(t, "fn") and p.peek(1) is not None and p.peek(1).kind == "ident":
+            # a local function without generics: fn name(params) -> Ret { body }
+            name = p.peek(1).text
+            q = p.i + 2
+            if not is_group(p.t[q] if q < len(p.t) else None, "Paren"):
+                raise SiteError(f"the local function `{name}` has generic parameters or no parameter list", ln)
+            params = p.t[q]
+            q += 1
+            ret = []
+            while q < len(p.t) and not is_group(p.t[q], "Brace"):
+                ret.append(p.t[q])
+                q += 1
+            if q >= len(p.t):
+                raise SiteError(f"the local function `{name}` has no body", ln)
+            stmts.append(("localfn", ln, name, Fn(name, params, ret, p.t[q], ln)))
+            p.i = q + 1
         elif is_kw(t, "fn") or is_kw(t, "struct") or is_kw(t, "enum") or is_kw(t, "impl"):
             raise SiteError(f"nested `{t.text}` items are not read by this translator", ln)
         else:
@@ -921,6 +940,8 @@ class Module:
                 depth += 1
             elif t.is_p(">") and depth:
                 depth -= 1
+            elif t.is_p(">>") and depth:
+                depth = max(0, depth - 2)
             if t.is_p(",") and depth == 0:
                 parts.append(cur)
                 cur = []
@@ -1165,7 +1186,10 @@ class Interp:
             elif s[0] == "const":
                 env[-1][s[2]] = self.coerce(self.ev(s[4], env, st), s[3])
             elif s[0] == "enum":
-                self.mod.enums.setdefault(s[2], [(v, "unit", s[1]) for v in s[3]])
+                self.mod.enums.setdefault(s[2], [(v if isinstance(v, str) else v[0], "unit" if isinstance(v, str) else v[1], s[1])
+                                                 for v in s[3]])
+            elif s[0] == "localfn":
+                env[-1][s[2]] = ("fn", s[3])
             else:
                 self.ev(s[2], env, st)
         return self.ev(b[3], env, st) if b[3] is not None else UNIT
@@ -1633,6 +1657,23 @@ class Interp:
         ext = getattr(self, "ext_methods", {})
         if (self.type_name(recv), name) in ext:
             return ext[(self.type_name(recv), name)](recv, args, ln)
+        if recv[0] == "vec":
+            if name == "pop" and not args:
+                return ("variant", None, "Some", [recv[1].pop()]) if recv[1] else ("variant", None, "None", [])
+            if name == "push" and len(args) == 1:
+                recv[1].append(args[0])
+                return UNIT
+            if name == "last" and not args:
+                return ("variant", None, "Some", [recv[1][-1]]) if recv[1] else ("variant", None, "None", [])
+            raise SiteError(f"method `{name}` on a Vec is not evaluated by this translator", ln)
+        if recv[0] == "list" and name == "push" and len(args) == 1:
+            recv[1].append(args[0])
+            return UNIT
+        if recv[0] == "objbuf":
+            if name == "push" and len(args) == 2:
+                recv[1].append((args[0], args[1]))
+                return ("bool", True)
+            raise SiteError(f"method `{name}` on the object under construction is not evaluated by this translator", ln)
         if recv[0] == "bytebuf":
             if name == "push" and len(args) == 1 and args[0][0] == "int":
                 recv[1].append(args[0][1])
@@ -1677,6 +1718,8 @@ class Interp:
             r = self.ev(guard, env + [b], st)
             self.need(r, "bool", ln)
             return r
+        if name == "vec":
+            return ("vec", [self.ev(Parser(q, ln).whole_expr(), env, st) for q in parts])
         if name in ("panic", "unreachable", "unimplemented", "todo"):
             raise EvalPanic(f"{name}! reached (line {ln})")
         if name in ("assert", "debug_assert"):
@@ -2901,7 +2944,7 @@ def _fragment_words():
 FRAGMENT_WORDS = _fragment_words()
 
 
-def site_leaf_fragment(mods):
+def _fragment_env(mods):
     """Fragment::parse_in of value.rs (white space, dispatch on the first character, how each sub-parser's result is
     wrapped), executed in each context under the strict and the flexible record; the sub-parsers are the functions of
     null.rs, boolean.rs, number.rs, string.rs, array.rs and object.rs, each run by its own interpreter on the same stub"""
@@ -2947,6 +2990,14 @@ def site_leaf_fragment(mods):
         ("object::StartFragment", "parse_in"): sub(omod, _impl_parse_in(omod, "StartFragment"), "StartFragment", key_ext, None,
                                                     {("Context", "ObjectKey"): ("variant", "Context", "ObjectKey", [])}),
     }
+    return vmod, pmod, fn, basic, subs, sub
+
+
+def site_leaf_fragment(mods):
+    """Fragment::parse_in of value.rs (white space, dispatch on the first character, how each sub-parser's result is
+    wrapped), executed in each context under the strict and the flexible record; the sub-parsers are the functions of
+    null.rs, boolean.rs, number.rs, string.rs, array.rs and object.rs, each run by its own interpreter on the same stub"""
+    vmod, pmod, fn, basic, subs, sub = _fragment_env(mods)
     mkv = lambda name: (lambda args, ln: ("variant", "Value", name, list(args)))
     out = []
     for k, (cname, kind, vln) in enumerate(pmod.enums["Context"]):
@@ -3002,6 +3053,118 @@ def site_leaf_fragment(mods):
                 out.append((word, [0, kindn, idx, stub[1]["pos"], e, len(payload)] + payload + [n for e_ in stub[1]["cm"] for n in e_]))
     return out, fn.line, (f"fn Fragment::parse_in (value.rs), executed on {len(FRAGMENT_WORDS)} inputs x 4 contexts x 2 option records "
                           f"against the Parser stub, sub-parsers run from their own files")
+
+
+# ----------------------------------------------------------------------------- the stack machine, executed
+def _enc_value(v, fn):
+    """null [0], true [1], false [2], number [3, n, bytes], string [4, n, characters], array [5, count, items..],
+    object [6, count, (n, key, value)..]"""
+    if v[0] != "variant" or v[1] != "Value":
+        raise SiteError(f"`{fn.where()}` builds {show_val(v)}, expected a Value", fn.line)
+    k = v[2]
+    if k == "Null":
+        return [0]
+    if k == "Boolean" and v[3][0][0] == "bool":
+        return [1 if v[3][0][1] else 2]
+    if k == "Number" and v[3][0][0] == "bytebuf":
+        return [3, len(v[3][0][1])] + list(v[3][0][1])
+    if k == "String" and v[3][0][0] == "strbuf":
+        return [4, len(v[3][0][1])] + list(v[3][0][1])
+    if k == "Array" and v[3][0][0] == "list":
+        out = [5, len(v[3][0][1])]
+        for x in v[3][0][1]:
+            out += _enc_value(x, fn)
+        return out
+    if k == "Object" and v[3][0][0] == "objbuf":
+        out = [6, len(v[3][0][1])]
+        for key, x in v[3][0][1]:
+            if key[0] != "strbuf":
+                raise SiteError(f"`{fn.where()}` builds an entry whose key is {show_val(key)}", fn.line)
+            out += [len(key[1])] + list(key[1]) + _enc_value(x, fn)
+        return out
+    raise SiteError(f"`{fn.where()}` builds {show_val(v)}", fn.line)
+
+
+def _machine_words():
+    toks = [_o("["), _o("]"), _o("{"), _o("}"), _o(","), _o(":"), _o("\"k\""), _o("1"), _o("null"), _o(" ")]
+    words = [[]]
+    level = [[]]
+    for _ in range(3):
+        level = [w + t for w in level for t in toks]
+        words += level
+    small = [_o("["), _o("]"), _o(","), _o("1"), _o("{"), _o("}"), _o("\"k\":")]
+    level = [[]]
+    for _ in range(4):
+        level = [w + t for w in level for t in small]
+    words += level
+    for t in ("[1,[2,[]],{\"a\":{\"b\":[null,true]},\"a\":false}] ", "{\"k\":[{},[],\"\\ud83d\\ude00\"],\"\":-0.5e+3}", "[[[[[[1]]]]]]",
+              "{\"a\":{\"a\":{\"a\":{}}}}", " [ 1 , 2 ] x", "[1 2]", "{\"a\" 1}", "{\"a\":1,}", "[1,]", "[,1]", "{,}", "[}", "{]", "[1}",
+              "{\"a\":1]", "\"\\ud83d\"", "[\"\\ud83d\", \"\\ude00\"]", "{\"\\ud83d\":1}", "nul", "[tru]", "[1e]", "1 1", "[][]",
+              "\t\r\n{ \"k\" : [ ] , \"k\" : { } }\n", "[\"a\"", "{\"a\":", "{\"a\"", "[1,", "-", "[-]"):
+        words.append(_o(t))
+    words += [_o("[1,") + [STREAM_ERR], _o("{\"k\":") + [STREAM_ERR] + _o("1}"), _o("[] ") + [STREAM_ERR], [STREAM_ERR]]
+    seen, out = set(), []
+    for w in words:
+        if tuple(w) not in seen:
+            seen.add(tuple(w))
+            out.append(w)
+    return out
+
+
+MACHINE_WORDS = _machine_words()
+
+
+def site_leaf_machine(mods):
+    """Value::parse_in of value.rs -- the explicit stack, its four kinds of frames, the local function stack_context, the
+    end-of-input check -- executed on whole documents under the strict and the flexible record, with Fragment::parse_in
+    and the array / object continuation functions run from the source as well"""
+    vmod, pmod, ffn, basic, subs, sub = _fragment_env(mods)
+    amod, omod, smod = mods("src/parse/array.rs"), mods("src/parse/object.rs"), mods("src/parse/string.rs")
+    fn = _impl_parse_in(vmod, "Value")
+    key_ext = dict(_string_externs())
+    key_ext[("Key", "parse_in")] = sub(smod, parse_in_fn(smod), "SmallString", _string_externs())
+    mkv = lambda name: (lambda args, ln: ("variant", "Value", name, list(args)))
+    ext = dict(basic)
+    ext.update(subs)
+    ext.update({("Value", n): mkv(n) for n in ("Boolean", "Number", "String", "Array", "Object")})
+    ext[("Array", "new")] = lambda args, ln: ("list", [])
+    ext[("Object", "new")] = lambda args, ln: ("objbuf", [])
+    ext[("array::ContinueFragment", "parse_in")] = sub(amod, _impl_parse_in(amod, "ContinueFragment"), "ContinueFragment")
+    ext[("object::ContinueFragment", "parse_in")] = sub(omod, _impl_parse_in(omod, "ContinueFragment"), "ContinueFragment", key_ext, None,
+                                                        {("Context", "ObjectKey"): ("variant", "Context", "ObjectKey", [])})
+    cvals = {("Value", "Null"): ("variant", "Value", "Null", [])}
+    for name, kind, ln_ in pmod.enums["Context"]:
+        cvals[("Context", name)] = ("variant", "Context", name, [])
+    out = []
+    for o in (0, 3):
+        for w in MACHINE_WORDS:
+            it = Interp(vmod)
+            it.externs = ext
+            it.ext_values = cvals
+
+            def cast(recv, args, ln, it=it):
+                # locspan::Meta::cast: the value goes through `From` -- here impl From<Value> for Fragment of value.rs
+                return ("variant", recv[1], "Meta", [it.call(vmod.find_fn("from", "Fragment"), [recv[3][0]], "Fragment"), recv[3][1]])
+            it.ext_methods = {("Meta", "cast"): cast}
+            stub = parser_stub(w)
+            stub[1]["cm"] = []
+            stub[1]["trunc"], stub[1]["inval"] = bool(o & 1), bool(o & 2)
+            try:
+                v = it.call(fn, [stub, ("variant", "Context", "None", [])], "Value")
+            except EvalPanic as e:
+                raise SiteError(f"`{fn.where()}` panics on the input {[hex(c) for c in w]}: {e}", fn.line)
+            if v[0] != "variant" or v[2] not in ("Ok", "Err"):
+                raise SiteError(f"`{fn.where()}` yields {show_val(v)}, expected a Result", fn.line)
+            x = v[3][0]
+            if v[2] == "Err":
+                out.append(([o] + w, _err_outcome(x, fn)))
+                continue
+            if not (x[0] == "variant" and x[2] == "Meta" and x[3][1][0] == "int"):
+                raise SiteError(f"`{fn.where()}` returns {show_val(x)}, expected Meta(value, index)", fn.line)
+            enc = _enc_value(x[3][0], fn)
+            out.append(([o] + w, [0, x[3][1][1], stub[1]["pos"], len(enc)] + enc + [n for e_ in stub[1]["cm"] for n in e_]))
+    return out, fn.line, (f"fn Value::parse_in (value.rs), executed on {len(MACHINE_WORDS)} documents x 2 option records against the Parser "
+                          f"stub, every function it calls run from the source")
 
 def cval_of(v, line):
     k = v[0]
@@ -3312,6 +3475,12 @@ def _sites():
                          + " ".join(str(n) for n in o) for w, o in v],
         thm="C02_fragment_from_source",
         model="the outcome of Parser.parse_fragment in the same context under the same option record on the same inputs")
+    add(id="leaf_machine", file="src/parse/value.rs", props=["C01", "C02", "C03", "C05", "C07"], ev=site_leaf_machine,
+        ty="list (list N * list N)", coq=lambda v: c_list([f"({c_cps(w)}, {c_cps(o)})" for w, o in v], ";\n   "),
+        items=lambda v: [f"options {w[0]}: " + " ".join("<fails>" if c == STREAM_ERR else u(c) for c in w[1:]) + " -> "
+                         + " ".join(str(n) for n in o) for w, o in v],
+        thm="C03_stack_machine_from_source",
+        model="the outcome of Parser.parse_items (the explicit-stack machine of the model) under the same option record on the same documents")
     add(id="is_control", file="src/parse/string.rs", props=parse_props, ev=site_is_control,
         ty="list (N * N)", coq=c_set, items=s_set, thm="C01_control_from_source",
         model="set_of Parser.is_control char_domain")
